@@ -27,6 +27,18 @@ type routeCase struct {
 }
 
 func bytesList(b []byte) string {
+	// long literals overflow Coq's parser: emit pieces of 400 joined with ++
+	if len(b) > 400 {
+		var parts []string
+		for i := 0; i < len(b); i += 400 {
+			j := i + 400
+			if j > len(b) {
+				j = len(b)
+			}
+			parts = append(parts, bytesList(b[i:j]))
+		}
+		return "(" + strings.Join(parts, " ++\n   ") + ")"
+	}
 	s := make([]string, len(b))
 	for i, x := range b {
 		s[i] = fmt.Sprint(x)
